@@ -616,6 +616,15 @@ func init() {
 			}
 			return boolVal(and(sx(">=", r, e.allocOld), sx("<", r, e.x.alloc(e.st))))
 		},
+		"nelems": func(e *SpecEnv, n ECall) Val {
+			v := e.eval(n.Args[0])
+			u, ok := v.T.Underlying().(*types.Slice)
+			if !ok || len(layout(u.Elem())) != 1 {
+				e.fail("nelems() needs a slice of integers")
+			}
+			h := e.x.comp(e.st, fmt.Sprintf("E$%s$0", typeKey(u.Elem())), elemSort(SInt))
+			return specInt(sx("prod", sel(h, v.base()), v.off(), v.slen()))
+		},
 		"sameslice": func(e *SpecEnv, n ECall) Val {
 			a := e.eval(n.Args[0])
 			b := e.eval(n.Args[1])
